@@ -206,17 +206,14 @@ def hover (j : Json) : Json := Id.run do
         let alt := judge listedTxs exp shown
         let gDropped := (k == "tag" || k == "tagvalue") &&
           (jbool exp "dropped" || dropped.contains (jhex exp "name"))
-        let gPayee := k == "payee" && !jbool exp "simple"
         let mut ids : Array Json := #[]
         if gDup then ids := ids.push "dup-include-doubled"
         if gMissing then ids := ids.push "warm-cache-truncated-tree"
         if gStale then ids := ids.push "unsaved-include-not-seen"
         if gDropped then ids := ids.push "txline-tags-dropped"
-        if gPayee then ids := ids.push "payee-range-estimated"
         let excused :=
           (alt && (gDup || gMissing || gDropped)) || gStale ||
-          (gDropped && jbool exp "dropped" && shown == Shown.nothing) ||
-          (gPayee && (match shown with | .payee _ _ => alt | _ => true))
+          (gDropped && jbool exp "dropped" && shown == Shown.nothing)
         if excused then
           for id in ids do
             if !known.contains id then known := known.push id
